@@ -203,3 +203,14 @@ Example C09_leaf_walker_code_nonvacuous :
     (VMap [(s "doc", VMap [(s "-id", VStr (s "7")); (s "#text", VStr (s "t")); (s "l", VList [VStr (s "x"); VMap [(s "y", VNil)]])])]) [] true
   = Ret [mk_LeafNode (s "doc") (VStr (s "t")); mk_LeafNode (s "doc.l[0]") (VStr (s "x")); mk_LeafNode (s "doc.l[1].y") VNil].
 Proof. vm_compute. reflexivity. Qed.
+
+(* the EXPORTED entry point: go2v's translation of Map.LeafNodes, calling the translated getLeafNodes (run with enough
+   fuel), returns exactly the model's leaf_nodes pairs, in the model's order *)
+From Mxj Require Import GenProofs.PureG5.
+
+Theorem C09_leaf_nodes_entry_code_is_model : forall st m (no_attr : list bool),
+  exists ns, fn_LeafNodes (run_getLeafNodes st) st m no_attr = Ret ns /\
+             map leaf_pair ns = leaf_nodes (g_attrPrefix st) (g_textK st) (g_useDotNotation st) (VMap m)
+                                  (match no_attr with [b] => b | _ => false end).
+Proof. exact leaf_nodes_entry_code_is_model. Qed.
+Print Assumptions C09_leaf_nodes_entry_code_is_model.
